@@ -1,4 +1,6 @@
 """C09  CIDs are accepted iff structurally sound; rejections name the offending row."""
+import zlib
+
 import core
 import cidlib
 
@@ -9,7 +11,7 @@ def run(ctx):
                 "preserving rewrites (comment rows, trailing cells, case of row markers / property names / format value, blanks around stripped cells) which must "
                 "stay accepted with identical fields, checks and format settings, (b) each of ~55 structural defects at every applicable row, which must be "
                 "rejected as interface error at that row, (c) field rows with grammar-generated length declarations (single, ranges, open ends, lists, hex, negative, "
-                "malformed) whose verdict must be the model's; every CID also goes through the Lean model of Cid.read; distinct = distinct row list; non-trivial = every case")
+                "malformed) whose verdict must be the model's; every CID also goes through the Lean model of Cid.read, a third of them also stored as comma separated text and loaded through create_cid_from_string; distinct = distinct row list; non-trivial = every case")
     n = 60 if ctx.tier == "quick" else 600
     cases = []   # (kind, rows, expectation)
     for _ in range(n):
@@ -60,6 +62,13 @@ def run(ctx):
                 ctx.violation("C09:defect-not-interface-error:%s:%s" % (name, impl.split("@")[0]), "defect %s surfaces as %s" % (name, impl), case)
             elif expect is not None and impl != "iface@%d" % expect:
                 ctx.violation("C09:defect-wrong-row:%s" % name, "defect %s in row %d reported as %s" % (name, expect, impl), case)
+        if zlib.crc32(repr(rows).encode("utf-8")) % 3 == 0 and not any("\r" in c or "\x00" in c for r in rows for c in r):
+            # the same rows stored as comma separated text and loaded through the reader for CID files: same verdict, same row
+            impl_text = cidlib.impl_canonical(rows, via_text=True)
+            ctx.count(key=("text", repr(rows)), branch="text-route")
+            if impl_text != impl:
+                ctx.violation("C09:text-route:%s" % ("row" if impl_text.split("@")[0] == impl.split("@")[0] else "verdict"),
+                              "the rows given directly: %s; stored as text: %s" % (impl, impl_text), dict(case, impl_text=impl_text))
         if impl != model:
             if impl.split("@")[0].split(" ")[0] != model.split("@")[0].split(" ")[0]:
                 ctx.violation("C09:model:%s" % kind.split(":")[0], "implementation %s, model %s" % (impl, model), case)
